@@ -248,6 +248,15 @@ theorem reverse_apply_diff_keyed {S : Schema} {fx : Fixes} (hS : K13.schemaOK S 
       dataEqL true A' A = true :=
   reverse_apply_diff_on (K13.keyOrderOn_keyed hS) hA hB (K13.keyedT_of_wf hA hcA) (K13.keyedT_of_wf hB hcB)
 
+/-- C06 `apply_diff_partial` in the observation of C13 with no hypothesis on the `sort` callbacks (its `KeysDistinguished` follows
+from `keyOrderOn_keyed`) -/
+theorem apply_diff_obs_keyed {S : Schema} (hS : K13.schemaOK S = true) (fx : Fixes) (A B : List DNode)
+    (hA : wfForest S A = true) (hB : wfForest S B = true) (hcA : K13.canonT S A = true) (hcB : K13.canonT S B = true) :
+    ∃ B', apply S A (diff S true A B) fx = .ok B' ∧ goodT S B' = true ∧ dataEqL true B' B = true :=
+  apply_diff_obs S fx A B hA hB
+    (K13.keysDistinguished_of_keyOrderOn (K13.keyOrderOn_keyed hS) (A ++ B) (K13.wfL_append hA hB)
+      (by rw [K13.allPL_append, K13.keyedT_of_wf hA hcA, K13.keyedT_of_wf hB hcB]; rfl))
+
 /-! ### non-vacuity: a keyed list with a `uint8` key (numeric, not lexicographic order: 2 < 10), three instances, a nested leaf
 change below a container of an instance, an instance deleted and one created, an `int8` leaf-list with a negative value -/
 
@@ -274,6 +283,9 @@ example : ¬ KeyOrder klS := fun K => keyOrder_no_keyed_list K (s := 0) (k := 1)
 example : K13.KeyOrderOn klS (K13.keyedOK klS) := keyOrderOn_keyed (by decide +kernel)
 example : ∃ A', reverseApply klS true klA klB = .ok A' ∧ dataEqL true A' klA = true :=
   reverse_apply_keyed (by decide +kernel) klA klB (by decide +kernel) (by decide +kernel) (by decide +kernel) (by decide +kernel)
+example : ∃ B', apply klS klA (diff klS true klA klB) = .ok B' ∧ goodT klS B' = true ∧ dataEqL true B' klB = true :=
+  apply_diff_obs_keyed (by decide +kernel) {} klA klB (by decide +kernel) (by decide +kernel) (by decide +kernel)
+    (by decide +kernel)
 example : K13.goodT klS (K13.keyedOK klS) klA = true ∧
     K13.exactDiff klS (K13.keyedOK klS) klA (diff klS true klA klB) = true := by decide +kernel
 /-- a non-canonical key value (`007`) is what `canonT` excludes: the `sort` callback cannot tell it from `7` -/
